@@ -10,6 +10,7 @@ import (
 	"strings"
 	"sync"
 	"time"
+	"verif/harness"
 
 	"github.com/failsafe-go/failsafe-go"
 	"github.com/failsafe-go/failsafe-go/cachepolicy"
@@ -251,7 +252,7 @@ func (r *Runner) runReal(st Step, id int64) *RealResult {
 		case "block":
 			select {
 			case <-exec.Canceled():
-			case <-time.After(30 * time.Second):
+			case <-harness.After(30 * time.Second):
 				real.Hung = true
 			}
 		case "cancel":
